@@ -1,6 +1,6 @@
 #!/bin/bash
 # Runs every check's quick (or given) tier and validates MANIFEST + evidence against the schemas.
-cd /verif
+cd "$(dirname "$0")/.."
 tier=${1:-quick}
 fail=0
 for i in $(seq -w 1 20); do
@@ -14,11 +14,12 @@ for i in $(seq -w 1 20); do
 done
 python3-vt - <<'PY'
 import json, jsonschema, glob
-m=json.load(open('/verif/MANIFEST.json'))
+import os
+m=json.load(open('MANIFEST.json'))
 jsonschema.validate(m, json.load(open('/root/.vp/MANIFEST.schema.json')))
 es=json.load(open('/root/.vp/EVIDENCE.schema.json'))
 for c in m['checks']:
-    e=json.load(open(c['evidence_file']))
+    e=json.load(open(os.path.join('evidence', os.path.basename(c['evidence_file']))))
     jsonschema.validate(e, es)
     assert e['level']==c['level_claimed']['category'], c['property_id']
 print("manifest + %d evidence files valid" % len(m['checks']))
